@@ -58,11 +58,37 @@ def render(case):
         if len(set(m)) == len(m):
             val = "1.5" if len(m) == 1 else f"float{len(m)}(" + ", ".join(f"{j + 1}.5" for j in range(len(m))) + ")"
             out.append(("write", f"export function f(float{n} v) -> float{n}\n{{\n  v.{m} = {val};\n  return v;\n}}\n"))
+    elif k == "comp":
+        def atom(a):
+            if a["s"] == "arrc":
+                return f"t[{a['c']}]"
+            if a["s"] == "arrt":
+                return "t[" + {"int-var": "i", "float-var": "x", "float-literal": "1.0"}[a["it"]] + "]"
+            if a["s"] == "mask":
+                return "iv." + "".join(a["m"]) + (".x" if len(a["m"]) > 1 else "")
+            return f"iv[{a['c']}]"
+        s1, s2 = atom(case["a"]), atom(case["b"])
+        sig = "int[3] t, int2 iv, int i, float x, float3[4] a, float3x3 m"
+        head = f"export function f({sig}) -> float\n{{\n"
+        if case["rel"] == "seq":
+            out.append(("seq", head + f"  int r = {s1};\n  return r + {s2};\n}}\n"))
+            out.append(("seq-write", head + f"  t[0] = {s1};\n  return {s2};\n}}\n"))
+        elif case["rel"] == "fns":
+            out.append(("fns", f"function g({sig}) -> int\n{{\n  return {s1};\n}}\n" + head + f"  return {s2};\n}}\n"))
+        elif case["rel"] == "nested-member":
+            out.append(("nested-member", head + f"  return a[{s1}].x + {s2};\n}}\n"))
+            out.append(("nested-member-write", head + f"  a[{s1}].y = {s2};\n  return a[0].y;\n}}\n"))
+        else:
+            out.append(("nested-index", head + f"  return t[{s1} % 3] + m[{s2} % 3][0];\n}}\n"))
     return out
 
 
 def detail(case):
     k = case["kind"]
+    if k == "comp":
+        def tag(a):
+            return a["s"] + ":" + str(a.get("c", a.get("it", "".join(a.get("m", [])))))
+        return f"comp:{case['rel']}:{tag(case['a'])}+{tag(case['b'])}"
     if k == "arr":
         c = case["chain"][case["pos"] - 1]
         return f"arr:{'neg' if c < 0 else 'high' if not case['ok'] else 'in'}:dim{case['pos']}of{len(case['shape'])}"
@@ -91,7 +117,7 @@ def work(cases):
                 why = info["failed_pass"] or ":".join(str(r).split(":")[:2])
                 out.append((f"rejects-valid:{detail(case)}:{ctxname}:{why}", f"valid selection refused ({str(r)[:70]}; failed pass {info['failed_pass']})", c2))
             elif not case["ok"] and st == "ok":
-                out.append((f"accepts-invalid:{detail(case)}:{ctxname}", "invalid selection accepted: " + src.split("\n")[-4 if ctxname != 'global-read' else -3].strip(), c2))
+                out.append((f"accepts-invalid:{detail(case)}:{ctxname}", "invalid selection accepted: " + (src.split("\n")[-4 if ctxname != 'global-read' else -3].strip() if case["kind"] != "comp" else " | ".join(l.strip() for l in src.split("\n") if "return" in l or "=" in l)), c2))
             else:
                 out.append((None, ("ok-accept" if case["ok"] else "ok-reject:" + (info["failed_pass"] or "crash:" + ":".join(str(r).split(":")[:2]))), None))
     return out
@@ -130,6 +156,7 @@ def run(ctx, args):
         ctx, level="model_checking", evaluations=evals, distinct_nontrivial=invalid,
         rule=f"TLC enumerates {len(cases)} cases ({kinds}): 39 array shapes x constant -1..4 at every dimension (other indices 0 or extent-1), vector sizes 2-4 and "
              f"float3x3/float4x4 x constants -1..5, 7 index-expression kinds x 3 containers, all masks of length <= {mm} over xyzw/rgba/q/s on vectors of size 2-4; "
+             "576 compositions of two selections (12 atoms x 12 atoms x {two statements, two functions, index of a member-selected element, inside index expressions}: accepted exactly if both are valid); "
              "each case rendered in 1-4 contexts (local/global/parameter, read/write), compiled, accept/reject compared. distinct_nontrivial = cases the language rejects.",
         samples=samples, exhaustive=True, traces_validated=evals,
         assumptions=["rejection = Compile returns None or raises", "write contexts for masks only when no letter repeats (the statement does not speak about repeated write masks)",
